@@ -118,7 +118,8 @@ func (self *StreamDecoder) Decode(val interface{}) (err error) {
 			return
 		}
 
-		self.scanp = e
+		// the native skip may frame more than the value the decoder consumed
+		self.scanp = s + self.Decoder.Pos()
 		_, empty := self.scan()
 		if empty {
 			// no remain valid bytes, thus we just recycle buffer
